@@ -12,6 +12,12 @@ CHECKS = {
  'C02': dict(cat='proof', tech='Lean 4 proof (time invariant by induction over arbitrary event lists; conservation by disjoint slot intervals) + virtual-clock correspondence',
    text='Lean: time_exact (stored ticks of a line = the specification spent: each LINE event is charged from its own second clock read to the first clock read of the next event on the same (thread, bytecode) slot, for every event list and from every state: time_invariant), time_inclusive (under NoReentry that is the same invocation\'s next line/return/yield/raise: callees included, suspension excluded), time_nonneg (monotone clock), time_conserved (one thread: the line times of a function sum to at most the clock span), time_no_disabled (disable clears the slots); reentrancy_witness proves the full-strength inclusive statement false under recursion (known finding F-C02a). K02 builds the tree with its timers.c wrapped by a virtual clock and compares every total_time cell of model and real profiler (one tick per clock read, so misplaced clock reads show); the oracle is an independent per-invocation accounting of the recorded run against a real run with a free clock, plus non-negativity and conservation; a real-clock calibration test checks time*unit = seconds.',
    note=TB + 'Partial: "time multiplied by unit is seconds" and monotonicity of CLOCK_MONOTONIC are runtime facts (calibration test only). NoReentry excludes F-C02a (recursion; classified narrowly: label ran re-entrantly in the recorded run and reported < per-invocation ticks while model = real). NoCollision as in C01.', ref='§6 C02'),
+ 'C03': dict(cat='proof', tech='Lean 4 proof (bisimulation of the generator wrapper over all bodies and send/throw/close histories; structural induction over descriptor towers) + correspondence on real objects',
+   text='Lean: wrapGenerator_bisim / wrapAsyncGen_bisim (for every generator body and every sequence of next/send/throw/close the wrapper object yields, accepts, raises, closes and returns exactly like the wrapped one; the generator-object protocol follows PEP 342/479 with generator / coroutine / async-generator end-of-life flavours), wrapCoroutine_transparent_partial (await-delegation, excluding what await itself changes; delegate_differs_on_explicit_genExit shows the excluded point is real), wrap_step_brackets, pinned_wrapper_not_transparent (witness for F-C03a/b, fixed in c4c5918), wrapCallable_transparent / wrapCallable_shape / kind_preserved (towers of classmethod, staticmethod, bound method, partial, partialmethod, property with any accessors, cached_property, callable instances, pre-wrapped layers, to any depth: same underlying functions run with the same arguments in the same order and the same failures; only function wrappers were added), register_inert, enable_never_raises (F-C03c fixed in d03f227), dispatch_order / impl_table over tables regenerated from profiler_mixin.py. K03: scripted real generators, coroutines and async generators (with and without awaits inside a step) and real towers, decorated by LineProfiler and by ContextualProfile, against the model; the oracle compares the decorated with the undecorated real object (results, exceptions, side-effect order, name/doc/signature/kind) and runs seven two-profiler scenarios.',
+   note=TB + 'CPython\'s generator, await and descriptor semantics are modelled, not verified. Known finding F-C03e: a ContextualProfile-decorated call inside an enabled LineProfiler fails inside cProfile (3.12 tool-id exclusivity). F-C03d (argument-binding errors of a wrapped generator function surface at the first next) is outside the harness\' argument-free scripts and recorded in DESIGN.md.', ref='§6 C03'),
+ 'C16': dict(cat='proof', tech='Lean 4 proof (structural induction over towers of callables: registration, bracket depth, idempotence) + correspondence on real towers',
+   text='Lean: underlying_registered (add_callable registers exactly the leaf functions of any tower over plain functions), runs_under_profiler (using the decorated object runs every underlying function with the bracket open) and every_path_wrapped_once (exactly one layer when none was there), wrap_idempotent and redecorate_registers_nothing (decorating again gives the same tower and registers nothing), underlying_groups over the table regenerated from line_profiler.py. K16 builds real towers (all property shapes with gaps, every kind x plain/generator/coroutine/async-generator function, callable instances, random towers up to depth 4 with pre-wrapped layers), decorates them with a real LineProfiler, compares the rebuilt object, the registered functions and the events of each access with the model; the oracle reads the statistics: hits on each underlying function equal its executions through the decorated and the twice-decorated object.',
+   note=TB + 'Exact counting while enabled is C01; descriptor semantics are modelled for sensible compositions (a callable chain under at most one descriptor).', ref='§6 C16'),
  'C05': dict(cat='proof', tech='Lean 4 proof (invariant by induction over arbitrary by-count histories from arbitrary threads) + correspondence on the real profilers',
    text='Lean theorems over the transcribed enable_by_count/disable_by_count: tracing_iff_positive, count_clipped (entries minus exits clipped at 0, thread-local), call_restores (every well-bracketed nest leaves count, tracing and tool id as found), enable_ok (never raises). K05 observes (enable_count, trace slot, sys.monitoring tool id) on the real LineProfiler and ContextualProfile after every operation and inside decorated bodies for all short and many random histories from 1-3 threads.',
    note=TB + 'Thread operations are serialised by the harness; the wrappers\' bracket structure (enable; try; finally disable) is what the harness feeds the model, so a wrapper that stops bracketing shows as a K05/oracle disagreement. Direct enable()/disable() excluded as in the property.', ref='§6 C05'),
